@@ -5,54 +5,52 @@ set_option linter.unusedSimpArgs false
 set_option linter.unusedVariables false
 
 /-!
-  C04 — the variables pass (validate_variables.go) is *silent* (no primary and no secondary error)
-  when the rules it depends on hold.
+  C04 — the variables pass (validate_variables.go, with fix 07) is *silent* (no primary and no
+  secondary error) when the rules it depends on hold.
 
   The secondary errors of the pass come from `validateVariableUsage` only:
   * "no type info for variable type": the declared type of the variable does not resolve —
     excluded by §5.8.2 (`variablesAreInputTypes`) for the variables of the operation;
-  * "no type info for location type": the usage position has no expected type.
+  * "no type info for location type": the usage position has no expected type and is not nested
+    in a literal given where a scalar type is expected (`inScalar`, fix 07 / F-04g).
 
-  **The statement without a hypothesis on the schema is false.** A custom scalar whose literal
-  coercion accepts list (or object) literals makes `Spec.valueOk` accept `[$v]` (resp. `{k: $v}`) at
-  a position of that scalar type, while TypeInfo (`Model.itemExpected` / `Model.objectFields`, equal
-  to `Spec.itemType` / `Spec.objectTarget`) has no expected type for the values nested in that
-  literal: the usage `$v` has `expected = none`, the model emits the secondary error, and no rule
-  of the specification is violated (`Spec.valid = true`, `Model.accepts = false`). The
-  counterexample is at the end of the file (`exScalarListS`, `exVarInScalarList`).
-
-  So `variables_silent` carries one more hypothesis, `Schema.scalarsFlat S`: no custom scalar of
-  the schema accepts list or object literals. `variables_silent_of_expected` is the general form:
-  its hypothesis is that every usage written in the document has an expected type.
+  A custom scalar whose literal coercion accepts list (or object) literals makes `Spec.valueOk`
+  accept `[$v]` (resp. `{k: $v}`) at a position of that scalar type, while the values nested in that
+  literal have no expected type (`Spec.itemType` / `Spec.objectTarget` are `none`). Before fix 07
+  the model emitted the secondary error there although no rule is violated (F-04g; the former
+  counterexample `exScalarListS` / `exVarInScalarList` is at the end of the file, now accepted).
+  With fix 07 such usages carry `inScalar = true` and are skipped, so "every usage has an expected
+  type" becomes "every usage has an expected type or is inside a literal for a scalar", which
+  §5.4.1, §5.7.1 and §5.6.1 give on a well-scoped document (`usages_have_expected`).
 -/
-
-/-- No custom scalar of the schema accepts list or object literals (the only positions where a
-    correct value (§5.6.1) can contain a nested value that has no expected type). -/
-def Schema.scalarsFlat (S : Schema) : Bool :=
-  S.types.all fun t =>
-    match t.kind with
-    | .scalar (.custom ks) => !ks.contains "list" && !ks.contains "object"
-    | _ => true
 
 /-! ## One usage -/
 
 theorem validateVariableUsage_allPrimary (S : Schema) (vd : VarDef) (p : Pos) (c : VCtx)
-    (hv : (Model.schemaType S vd.type).isSome = true) (hc : c.exp.isSome = true) :
+    (hv : (Model.schemaType S vd.type).isSome = true)
+    (hc : c.exp.isSome = true ∨ c.inScalar = true) :
     AllPrimary (validateVariableUsage S vd p c) := by
   unfold validateVariableUsage
   cases hs : Model.schemaType S vd.type with
   | none => simp [hs] at hv
   | some vt =>
     cases he : c.exp with
-    | none => simp [he] at hc
+    | none =>
+      have hsc : c.inScalar = true := by
+        rcases hc with hc | hc
+        · simp [he] at hc
+        · exact hc
+      simp only [hsc, if_true]
+      exact allPrimary_nil
     | some lt =>
       cases lt <;> simp only <;> repeat' split
       all_goals first | exact allPrimary_nil | exact allPrimary_single _ _
 
-/-- A usage with an expected type, of a variable whose declared type resolves, yields primary
-    errors only. -/
+/-- A usage with an expected type, or inside a literal for a scalar (fix 07), of a variable whose
+    declared type resolves, yields primary errors only. -/
 theorem usageErrs_allPrimary (S : Schema) (vars : List VarDef) (u : Usage)
-    (hv : ∀ vd ∈ vars, (Model.schemaType S vd.type).isSome = true) (hu : u.expected.isSome = true) :
+    (hv : ∀ vd ∈ vars, (Model.schemaType S vd.type).isSome = true)
+    (hu : u.expected.isSome = true ∨ u.inScalar = true) :
     AllPrimary (usageErrs S vars u) := by
   unfold usageErrs
   cases hf : vars.find? (fun vd => vd.name = u.name) with
@@ -81,7 +79,7 @@ theorem body_errs_eq {S : Schema} {D : Document} (h : WellScoped S D)
 theorem body_allPrimary {S : Schema} {D : Document} (h : WellScoped S D)
     (hw : Schema.wfDefaults S = true) {d : Definition} (hd : d ∈ D) (vars : List VarDef)
     (hv : ∀ vd ∈ vars, (Model.schemaType S vd.type).isSome = true)
-    (hexp : ∀ u ∈ bodyUsages S d, u.expected.isSome = true) :
+    (hexp : ∀ u ∈ bodyUsages S d, u.expected.isSome = true ∨ u.inScalar = true) :
     AllPrimary (varsDirectives S vars (Model.defDirs d) ++
       varsSet S vars (Model.defScope S d) (Model.defSel d)).errs := by
   rw [body_errs_eq h hw hd vars]
@@ -92,7 +90,7 @@ theorem body_allPrimary {S : Schema} {D : Document} (h : WellScoped S D)
 theorem contrib_allPrimary {S : Schema} {D : Document} (h : WellScoped S D)
     (hw : Schema.wfDefaults S = true) (vars : List VarDef)
     (hv : ∀ vd ∈ vars, (Model.schemaType S vd.type).isSome = true)
-    (hexp : ∀ d ∈ D, ∀ u ∈ bodyUsages S d, u.expected.isSome = true) (n : String) :
+    (hexp : ∀ d ∈ D, ∀ u ∈ bodyUsages S d, u.expected.isSome = true ∨ u.inScalar = true) (n : String) :
     AllPrimary (contrib S D vars n).errs := by
   unfold contrib
   cases hf : Model.fragLast D n with
@@ -141,7 +139,7 @@ theorem varsFragments_allPrimary (S : Schema) (D : Document) (vars : List VarDef
 
 theorem validateVariablesOp_allPrimary {S : Schema} {D : Document} (hws : WellScoped S D)
     (hw : Schema.wfDefaults S = true)
-    (hexp : ∀ d ∈ D, ∀ u ∈ bodyUsages S d, u.expected.isSome = true)
+    (hexp : ∀ d ∈ D, ∀ u ∈ bodyUsages S d, u.expected.isSome = true ∨ u.inScalar = true)
     {kind : Option (OpKind × Pos)} {name : Option (String × Pos)}
     {vars : List VarDef} {dirs : List Directive} {sel : SelSet}
     (hd : Definition.op kind name vars dirs sel ∈ D)
@@ -176,7 +174,7 @@ theorem vars_resolve {S : Schema} {D : Document} (h2 : Spec.variablesAreInputTyp
 
 theorem validateVariablesDefs_allPrimary {S : Schema} {D : Document} (hws : WellScoped S D)
     (hw : Schema.wfDefaults S = true) (h2 : Spec.variablesAreInputTypes S D = true)
-    (hexp : ∀ d ∈ D, ∀ u ∈ bodyUsages S d, u.expected.isSome = true) (fuel : Nat) :
+    (hexp : ∀ d ∈ D, ∀ u ∈ bodyUsages S d, u.expected.isSome = true ∨ u.inScalar = true) (fuel : Nat) :
     ∀ (ds : List Definition), (∀ d ∈ ds, d ∈ D) → AllPrimary (validateVariablesDefs S D fuel ds).1 := by
   intro ds
   induction ds with
@@ -201,23 +199,25 @@ theorem validateVariablesDefs_allPrimary {S : Schema} {D : Document} (hws : Well
           exact allPrimary_append hop ihr
 
 /-- **No secondary error, variables pass**: on a well-scoped document whose variables have input
-    types and whose usages all have an expected type, the variables pass emits primary errors only
+    types and whose usages all have an expected type or are inside a literal for a scalar, the
+    variables pass emits primary errors only
     ("no type info for variable type" / "no type info for location type" never occur), with any
     fuel. -/
 theorem variables_no_secondary {S : Schema} {D : Document} (hws : WellScoped S D)
     (hw : Schema.wfDefaults S = true) (h2 : Spec.variablesAreInputTypes S D = true)
-    (hexp : ∀ d ∈ D, ∀ u ∈ bodyUsages S d, u.expected.isSome = true) (fuel : Nat) :
+    (hexp : ∀ d ∈ D, ∀ u ∈ bodyUsages S d, u.expected.isSome = true ∨ u.inScalar = true) (fuel : Nat) :
     AllPrimary (Model.validateVariables S D fuel).1 :=
   validateVariablesDefs_allPrimary hws hw h2 hexp fuel D (fun _ h => h)
 
 /-- **Variables pass silent, general form**: if §5.8.1 – §5.8.5 hold and every usage written in the
-    document has an expected type, the pass reports nothing at all. -/
+    document has an expected type or is inside a literal for a scalar, the pass reports nothing at
+    all. -/
 theorem variables_silent_of_expected {S : Schema} {D : Document} (hws : WellScoped S D)
     (hw : Schema.wfDefaults S = true) (hu : Spec.fragmentNamesUnique D = true)
     (h1 : Spec.variablesUnique D = true) (h2 : Spec.variablesAreInputTypes S D = true)
     (h3 : Spec.variableUsesDefined S D = true) (h4 : Spec.variablesUsed S D = true)
     (h5 : Spec.variableUsagesAllowed S D = true)
-    (hexp : ∀ d ∈ D, ∀ u ∈ bodyUsages S d, u.expected.isSome = true) :
+    (hexp : ∀ d ∈ D, ∀ u ∈ bodyUsages S d, u.expected.isSome = true ∨ u.inScalar = true) :
     Model.validateVariables S D (Model.fuelFor D) = ([], false) := by
   obtain ⟨errs, he, hp⟩ := model_variables_eq_spec hws hw hu
   rw [h1, h2, h3, h4, h5] at hp
@@ -225,35 +225,9 @@ theorem variables_silent_of_expected {S : Schema} {D : Document} (hws : WellScop
   rw [he] at hap
   rw [he, nil_of_primaryFree_allPrimary hp hap]
 
-/-! ## Every usage has an expected type (§5.4.1, §5.7.1, §5.6.1 on a well-scoped document) -/
 
-theorem scalarsFlat_custom {S : Schema} (hflat : Schema.scalarsFlat S = true) {n : String} {ks : List String}
-    (hk : Spec.kindOf S n = some (.scalar (.custom ks))) :
-    ks.contains "list" = false ∧ ks.contains "object" = false := by
-  unfold Spec.kindOf at hk
-  cases hf : S.find n with
-  | none => simp [hf] at hk
-  | some td =>
-    simp only [hf, Option.map_some, Option.some.injEq] at hk
-    unfold Schema.scalarsFlat at hflat
-    simp only [List.all_eq_true] at hflat
-    have := hflat td (find_mem hf)
-    rw [hk] at this
-    simpa using this
-
-theorem scalarAccepts_list_false {S : Schema} (hflat : Schema.scalarsFlat S = true) {n : String}
-    {spec : ScalarSpec} (hk : Spec.kindOf S n = some (.scalar spec)) (items : List Value) (p : Pos) :
-    Spec.scalarAccepts spec (.list items p) = false := by
-  cases spec with
-  | custom ks => simpa [Spec.scalarAccepts] using (scalarsFlat_custom hflat hk).1
-  | _ => simp [Spec.scalarAccepts]
-
-theorem scalarAccepts_obj_false {S : Schema} (hflat : Schema.scalarsFlat S = true) {n : String}
-    {spec : ScalarSpec} (hk : Spec.kindOf S n = some (.scalar spec)) (fields : List ObjField) (p : Pos) :
-    Spec.scalarAccepts spec (.obj fields p) = false := by
-  cases spec with
-  | custom ks => simpa [Spec.scalarAccepts] using (scalarsFlat_custom hflat hk).2
-  | _ => simp [Spec.scalarAccepts]
+/-! ## Every usage has an expected type or is inside a literal for a scalar
+    (§5.4.1, §5.7.1, §5.6.1 on a well-scoped document) -/
 
 theorem nullable_named_base : ∀ (t : TRef) (n : String), t.nullable = .named n → t.base = n
   | .named m, n, h => by simpa [TRef.nullable, TRef.base] using h
@@ -277,20 +251,66 @@ theorem literalTarget_base {t : TRef} {ai : Bool} {n : String} (h : Spec.literal
     | list x => simp [hn] at h
     | nonNull x => simp [hn] at h
 
+theorem itemInScalar_none (S : Schema) : Spec.itemInScalar S none true = true := by
+  simp [Spec.itemInScalar, Spec.itemType]
+
+theorem fieldInScalar_none (S : Schema) : Spec.fieldInScalar S none true = true := by
+  simp [Spec.fieldInScalar, Spec.objectTarget]
+
+mutual
+/-- Everything nested in a value that is inside a literal for a scalar (no expected type, flag
+    set) is inside that literal. -/
+theorem usagesValue_inScalar (S : Schema) :
+    ∀ (v : Value) (ld : Bool), ∀ u ∈ Spec.usagesValue S none ld true v, u.inScalar = true
+  | .var n p, ld => by simp [Spec.usagesValue]
+  | .list items p, ld => by
+    unfold Spec.usagesValue
+    rw [itemInScalar_none]
+    exact usagesItems_inScalar S items
+  | .obj fields p, ld => by
+    unfold Spec.usagesValue
+    rw [fieldInScalar_none]
+    exact usagesFields_inScalar S fields
+  | .int _ _, ld => by simp [Spec.usagesValue]
+  | .float _ _, ld => by simp [Spec.usagesValue]
+  | .str _ _, ld => by simp [Spec.usagesValue]
+  | .bool _ _, ld => by simp [Spec.usagesValue]
+  | .null _, ld => by simp [Spec.usagesValue]
+  | .enum _ _, ld => by simp [Spec.usagesValue]
+theorem usagesItems_inScalar (S : Schema) :
+    ∀ (items : List Value), ∀ u ∈ Spec.usagesItems S none true items, u.inScalar = true
+  | [] => by simp [Spec.usagesItems]
+  | v :: rest => by
+    simp only [Spec.usagesItems, List.mem_append]
+    rintro u (hu | hu)
+    · exact usagesValue_inScalar S v false u hu
+    · exact usagesItems_inScalar S rest u hu
+theorem usagesFields_inScalar (S : Schema) :
+    ∀ (fields : List ObjField), ∀ u ∈ Spec.usagesFields S none true fields, u.inScalar = true
+  | [] => by simp [Spec.usagesFields]
+  | .mk n p v :: rest => by
+    simp only [Spec.usagesFields, Option.bind_none, List.mem_append]
+    rintro u (hu | hu)
+    · exact usagesValue_inScalar S v false u hu
+    · exact usagesFields_inScalar S rest u hu
+end
+
 mutual
 /-- A correct value (§5.6.1) at a typed position gives every variable nested in it an expected
-    type — when no scalar swallows list / object literals. -/
-theorem usagesValue_expected (S : Schema) (hflat : Schema.scalarsFlat S = true) :
-    ∀ (v : Value) (t : TRef) (ai ld : Bool), Spec.valueOk S t ai v = true →
-      ∀ u ∈ Spec.usagesValue S (some t) ld v, u.expected.isSome = true
-  | .var n p, t, ai, ld, _ => by simp [Spec.usagesValue]
-  | .list items p, t, ai, ld, h => by
+    type — or the variable is inside a list / object literal accepted by a scalar. -/
+theorem usagesValue_expected (S : Schema) :
+    ∀ (v : Value) (t : TRef) (ai ld sc : Bool), Spec.valueOk S t ai v = true →
+      ∀ u ∈ Spec.usagesValue S (some t) ld sc v, u.expected.isSome = true ∨ u.inScalar = true
+  | .var n p, t, ai, ld, sc, _ => by simp [Spec.usagesValue]
+  | .list items p, t, ai, ld, sc, h => by
     unfold Spec.valueOk at h
-    unfold Spec.usagesValue Spec.itemType
+    unfold Spec.usagesValue
     cases hn : t.nullable with
     | list inner =>
-      simp only [hn] at h ⊢
-      exact usagesItems_expected S hflat items inner h
+      have e1 : Spec.itemType (some t) = some inner := by simp [Spec.itemType, hn]
+      rw [e1]
+      simp only [hn] at h
+      exact usagesItems_expected S items inner _ h
     | named n =>
       simp only [hn] at h
       cases hk : Spec.kindOf S n with
@@ -298,14 +318,16 @@ theorem usagesValue_expected (S : Schema) (hflat : Schema.scalarsFlat S = true) 
       | some k =>
         cases k with
         | scalar spec =>
-          simp only [hk] at h
-          rw [scalarAccepts_list_false hflat hk] at h
-          exact absurd h (by simp)
+          have e1 : Spec.itemType (some t) = none := by simp [Spec.itemType, hn]
+          have e2 : Spec.itemInScalar S (some t) sc = true := by
+            simp [Spec.itemInScalar, e1, Spec.nullableIsScalar, hn, hk]
+          rw [e1, e2]
+          exact fun u hu => Or.inr (usagesItems_inScalar S items u hu)
         | _ => simp [hk] at h
     | nonNull x => simp [hn] at h
-  | .obj fields p, t, ai, ld, h => by
+  | .obj fields p, t, ai, ld, sc, h => by
     unfold Spec.valueOk at h
-    unfold Spec.usagesValue Spec.objectTarget
+    unfold Spec.usagesValue
     cases hl : Spec.literalTarget t ai with
     | none => simp [hl] at h
     | some n =>
@@ -317,34 +339,38 @@ theorem usagesValue_expected (S : Schema) (hflat : Schema.scalarsFlat S = true) 
       | some k =>
         cases k with
         | scalar spec =>
-          simp only [hk] at h
-          rw [scalarAccepts_obj_false hflat hk] at h
-          exact absurd h (by simp)
+          have e1 : Spec.objectTarget S (some t) = none := by simp [Spec.objectTarget, hk]
+          have e2 : Spec.fieldInScalar S (some t) sc = true := by
+            simp [Spec.fieldInScalar, e1, Spec.baseIsScalar, hk]
+          rw [e1, e2]
+          exact fun u hu => Or.inr (usagesFields_inScalar S fields u hu)
         | input defs =>
-          simp only [hk, Bool.and_eq_true] at h ⊢
-          exact usagesFields_expected S hflat fields defs h.2
+          have e1 : Spec.objectTarget S (some t) = some defs := by simp [Spec.objectTarget, hk]
+          rw [e1]
+          simp only [hk, Bool.and_eq_true] at h
+          exact usagesFields_expected S fields defs _ h.2
         | _ => simp [hk] at h
-  | .int _ _, t, ai, ld, _ => by simp [Spec.usagesValue]
-  | .float _ _, t, ai, ld, _ => by simp [Spec.usagesValue]
-  | .str _ _, t, ai, ld, _ => by simp [Spec.usagesValue]
-  | .bool _ _, t, ai, ld, _ => by simp [Spec.usagesValue]
-  | .null _, t, ai, ld, _ => by simp [Spec.usagesValue]
-  | .enum _ _, t, ai, ld, _ => by simp [Spec.usagesValue]
-theorem usagesItems_expected (S : Schema) (hflat : Schema.scalarsFlat S = true) :
-    ∀ (items : List Value) (t : TRef), Spec.itemsOk S t items = true →
-      ∀ u ∈ Spec.usagesItems S (some t) items, u.expected.isSome = true
-  | [], t, _ => by simp [Spec.usagesItems]
-  | v :: rest, t, h => by
+  | .int _ _, t, ai, ld, sc, _ => by simp [Spec.usagesValue]
+  | .float _ _, t, ai, ld, sc, _ => by simp [Spec.usagesValue]
+  | .str _ _, t, ai, ld, sc, _ => by simp [Spec.usagesValue]
+  | .bool _ _, t, ai, ld, sc, _ => by simp [Spec.usagesValue]
+  | .null _, t, ai, ld, sc, _ => by simp [Spec.usagesValue]
+  | .enum _ _, t, ai, ld, sc, _ => by simp [Spec.usagesValue]
+theorem usagesItems_expected (S : Schema) :
+    ∀ (items : List Value) (t : TRef) (sc : Bool), Spec.itemsOk S t items = true →
+      ∀ u ∈ Spec.usagesItems S (some t) sc items, u.expected.isSome = true ∨ u.inScalar = true
+  | [], t, sc, _ => by simp [Spec.usagesItems]
+  | v :: rest, t, sc, h => by
     simp only [Spec.itemsOk, Bool.and_eq_true] at h
     simp only [Spec.usagesItems, List.mem_append]
     rintro u (hu | hu)
-    · exact usagesValue_expected S hflat v t false false h.1 u hu
-    · exact usagesItems_expected S hflat rest t h.2 u hu
-theorem usagesFields_expected (S : Schema) (hflat : Schema.scalarsFlat S = true) :
-    ∀ (fields : List ObjField) (defs : List InputDef), Spec.objFieldsOk S defs fields = true →
-      ∀ u ∈ Spec.usagesFields S (some defs) fields, u.expected.isSome = true
-  | [], defs, _ => by simp [Spec.usagesFields]
-  | .mk n p v :: rest, defs, h => by
+    · exact usagesValue_expected S v t false false sc h.1 u hu
+    · exact usagesItems_expected S rest t sc h.2 u hu
+theorem usagesFields_expected (S : Schema) :
+    ∀ (fields : List ObjField) (defs : List InputDef) (sc : Bool), Spec.objFieldsOk S defs fields = true →
+      ∀ u ∈ Spec.usagesFields S (some defs) sc fields, u.expected.isSome = true ∨ u.inScalar = true
+  | [], defs, sc, _ => by simp [Spec.usagesFields]
+  | .mk n p v :: rest, defs, sc, h => by
     simp only [Spec.objFieldsOk, Bool.and_eq_true] at h
     simp only [Spec.usagesFields, Option.bind_some, List.mem_append]
     cases hf : findInput defs n with
@@ -352,15 +378,15 @@ theorem usagesFields_expected (S : Schema) (hflat : Schema.scalarsFlat S = true)
     | some d =>
       simp only [hf] at h ⊢
       rintro u (hu | hu)
-      · exact usagesValue_expected S hflat v d.type true _ h.1 u hu
-      · exact usagesFields_expected S hflat rest defs h.2 u hu
+      · exact usagesValue_expected S v d.type true _ false h.1 u hu
+      · exact usagesFields_expected S rest defs sc h.2 u hu
 end
 
 /-- One argument list checked against its definitions: §5.4.1 and §5.6.1 there. -/
-theorem usagesArgs_expected (S : Schema) (hflat : Schema.scalarsFlat S = true) (defs : List InputDef)
+theorem usagesArgs_expected (S : Schema) (defs : List InputDef)
     (args : List Argument) (hk : Spec.argsKnownAt { defs := defs, args := args } = true)
     (hv : Spec.siteValuesOk S { defs := defs, args := args } = true) :
-    ∀ u ∈ Spec.usagesArgs S (some defs) args, u.expected.isSome = true := by
+    ∀ u ∈ Spec.usagesArgs S (some defs) args, u.expected.isSome = true ∨ u.inScalar = true := by
   intro u hu
   unfold Spec.usagesArgs at hu
   simp only [List.mem_flatMap, Option.bind_some] at hu
@@ -373,13 +399,13 @@ theorem usagesArgs_expected (S : Schema) (hflat : Schema.scalarsFlat S = true) (
   | none => simp [hf] at k
   | some d =>
     simp only [hf] at v hua
-    exact usagesValue_expected S hflat a.value d.type true _ v u hua
+    exact usagesValue_expected S a.value d.type true _ false v u hua
 
-theorem usagesDirs_expected (S : Schema) (hflat : Schema.scalarsFlat S = true) (dirs : List Directive)
+theorem usagesDirs_expected (S : Schema) (dirs : List Directive)
     (hdef : ∀ d ∈ dirs, (S.findDirective d.name).isSome = true)
     (hk : (Spec.dirArgSites S dirs).all Spec.argsKnownAt = true)
     (hv : (Spec.dirArgSites S dirs).all (Spec.siteValuesOk S) = true) :
-    ∀ u ∈ Spec.usagesDirs S dirs, u.expected.isSome = true := by
+    ∀ u ∈ Spec.usagesDirs S dirs, u.expected.isSome = true ∨ u.inScalar = true := by
   intro u hu
   unfold Spec.usagesDirs at hu
   simp only [List.mem_flatMap] at hu
@@ -393,14 +419,14 @@ theorem usagesDirs_expected (S : Schema) (hflat : Schema.scalarsFlat S = true) (
       exact ⟨d, hd, by simp [hf]⟩
     simp only [List.all_eq_true] at hk hv
     simp only [hf, Option.map_some] at hud
-    exact usagesArgs_expected S hflat dd.args d.args (hk _ hmem) (hv _ hmem) u hud
+    exact usagesArgs_expected S dd.args d.args (hk _ hmem) (hv _ hmem) u hud
 
-theorem usagesOcc_expected (S : Schema) (hflat : Schema.scalarsFlat S = true) {o : Occ}
+theorem usagesOcc_expected (S : Schema) {o : Occ}
     (hinv : Inv S (occParent o)) (hs : scopedAt S o = true)
     (hdef : ∀ d ∈ Spec.occDirs o, (S.findDirective d.name).isSome = true)
     (hk : (Spec.occArgSites S o).all Spec.argsKnownAt = true)
     (hv : (Spec.occArgSites S o).all (Spec.siteValuesOk S) = true) :
-    ∀ u ∈ Spec.usagesOcc S o, u.expected.isSome = true := by
+    ∀ u ∈ Spec.usagesOcc S o, u.expected.isSome = true ∨ u.inScalar = true := by
   cases o with
   | field parent al n np args dirs sel =>
     obtain ⟨p, hp', hp⟩ := hinv
@@ -415,25 +441,24 @@ theorem usagesOcc_expected (S : Schema) (hflat : Schema.scalarsFlat S = true) {o
         Bool.and_true, Bool.and_eq_true] at hk hv hdef
       simp only [Spec.usagesOcc, Option.bind_some, hfd, Option.map_some, List.mem_append]
       rintro u (hu | hu)
-      · exact usagesArgs_expected S hflat fd.args args hk.1 hv.1 u hu
-      · exact usagesDirs_expected S hflat dirs hdef hk.2 hv.2 u hu
+      · exact usagesArgs_expected S fd.args args hk.1 hv.1 u hu
+      · exact usagesDirs_expected S dirs hdef hk.2 hv.2 u hu
   | spread parent n np dirs p =>
     simp only [Spec.occArgSites, Spec.occDirs, List.nil_append] at hk hv hdef
     simp only [Spec.usagesOcc]
-    exact usagesDirs_expected S hflat dirs hdef hk hv
+    exact usagesDirs_expected S dirs hdef hk hv
   | inline parent tc dirs p =>
     simp only [Spec.occArgSites, Spec.occDirs, List.nil_append] at hk hv hdef
     simp only [Spec.usagesOcc]
-    exact usagesDirs_expected S hflat dirs hdef hk hv
+    exact usagesDirs_expected S dirs hdef hk hv
 
-/-- On a well-scoped document with known arguments, defined directives and correct values — and a
-    schema none of whose scalars accepts list / object literals — every variable usage written in
-    the document (in operations and in fragments, reachable or not) has an expected type. -/
+/-- On a well-scoped document with known arguments, defined directives and correct values every
+    variable usage written in the document (in operations and in fragments, reachable or not) has an
+    expected type, or is nested in a list / object literal accepted by a scalar. -/
 theorem usages_have_expected {S : Schema} {D : Document} (hws : WellScoped S D)
-    (hflat : Schema.scalarsFlat S = true)
     (hk : Spec.argumentsKnown S D = true) (hd : Spec.directivesDefined S D = true)
     (hv : Spec.valuesCorrect S D = true) :
-    ∀ d ∈ D, ∀ u ∈ bodyUsages S d, u.expected.isSome = true := by
+    ∀ d ∈ D, ∀ u ∈ bodyUsages S d, u.expected.isSome = true ∨ u.inScalar = true := by
   intro d hdD
   obtain ⟨_, hocc⟩ := def_occs hws hdD
   -- the three rules, per definition and per occurrence
@@ -459,36 +484,33 @@ theorem usages_have_expected {S : Schema} {D : Document} (hws : WellScoped S D)
   unfold bodyUsages at hu
   simp only [List.mem_append, List.mem_flatMap] at hu
   rcases hu with hu | ⟨o, ho, hu⟩
-  · exact usagesDirs_expected S hflat _ dD (hkD d hdD) (hvD d hdD) u hu
+  · exact usagesDirs_expected S _ dD (hkD d hdD) (hvD d hdD) u hu
   · have dOo : ∀ dir ∈ Spec.occDirs o, (S.findDirective dir.name).isSome = true := by
       have := dO o ho
       simp only [Function.comp, List.all_eq_true] at this
       exact this
-    exact usagesOcc_expected S hflat (hocc o ho).1 (hocc o ho).2 dOo (kO o ho) (vO o ho) u hu
+    exact usagesOcc_expected S (hocc o ho).1 (hocc o ho).2 dOo (kO o ho) (vO o ho) u hu
 
 /-! ## The theorem -/
 
-/-- **Variables pass silent**: on a well-scoped document, over a schema none of whose custom
-    scalars accepts list / object literals (`hflat` — without it the statement is false, see the
-    counterexample below), if §5.8.1 – §5.8.5, §5.4.1, §5.7.1 and §5.6.1 hold, the variables pass
-    reports nothing at all: no primary error and no secondary error either, within the pipeline's
-    fuel. -/
+/-- **Variables pass silent**: on a well-scoped document, if §5.8.1 – §5.8.5, §5.4.1, §5.7.1 and
+    §5.6.1 hold, the variables pass reports nothing at all: no primary error and no secondary error
+    either, within the pipeline's fuel. -/
 theorem variables_silent {S : Schema} {D : Document} (hws : WellScoped S D)
-    (hw : Schema.wfDefaults S = true) (hflat : Schema.scalarsFlat S = true)
-    (hu : Spec.fragmentNamesUnique D = true)
+    (hw : Schema.wfDefaults S = true) (hu : Spec.fragmentNamesUnique D = true)
     (h1 : Spec.variablesUnique D = true) (h2 : Spec.variablesAreInputTypes S D = true)
     (h3 : Spec.variableUsesDefined S D = true) (h4 : Spec.variablesUsed S D = true)
     (h5 : Spec.variableUsagesAllowed S D = true)
     (hk : Spec.argumentsKnown S D = true) (hd : Spec.directivesDefined S D = true)
     (hv : Spec.valuesCorrect S D = true) :
     Model.validateVariables S D (Model.fuelFor D) = ([], false) :=
-  variables_silent_of_expected hws hw hu h1 h2 h3 h4 h5 (usages_have_expected hws hflat hk hd hv)
+  variables_silent_of_expected hws hw hu h1 h2 h3 h4 h5 (usages_have_expected hws hk hd hv)
 
-/-! ## Counterexample to the statement without `hflat`
+/-! ## The input of F-04g (fix 07), formerly a counterexample, now accepted
 
     `scalar J` accepts list literals; `Query { f(a: J): Int }`; `query($v: Int) { f(a: [$v]) }`.
-    All 26 rules hold, the hypotheses of the theorems hold, and the variables pass emits the
-    secondary error "no type info for location type" at `$v` — the document is rejected. -/
+    All 26 rules hold; before fix 07 the variables pass emitted the secondary error "no type info
+    for location type" at `$v` and the document was rejected. -/
 
 def exScalarListS : Schema :=
   { types := [
@@ -510,10 +532,11 @@ example : WellScoped exScalarListS exVarInScalarList :=
   { wf := by decide, ops := by decide, typesExist := by decide, onComposite := by decide,
     fields := by decide, leaves := by decide }
 example : Schema.wfDefaults exScalarListS = true := by decide
-example : Schema.scalarsFlat exScalarListS = false := by decide
 example : Spec.valid exScalarListS exVarInScalarList = true := by decide
+example : (exVarInScalarList.flatMap (Spec.defUsages exScalarListS exVarInScalarList)).map
+    (fun u => (u.expected, u.inScalar)) = [(none, true)] := by decide
 example : Model.validateVariables exScalarListS exVarInScalarList (Model.fuelFor exVarInScalarList) =
-    ([newSecondaryError ⟨1, 24⟩ "no type info for location type"], false) := by decide
-example : Model.accepts exScalarListS exVarInScalarList = false := by decide
+    ([], false) := by decide
+example : Model.accepts exScalarListS exVarInScalarList = true := by decide
 
 end ApiFu.C04
